@@ -329,7 +329,7 @@ class FnTranslator:
         body = [c for c in n.get('inner', []) or [] if c.get('kind') == 'CompoundStmt']
         sl = self.U.slice_for(self.key) if hasattr(self.U, 'slice_for') else None
         self.slice_stmts = None
-        if '#loop' in self.key and body:
+        if re.search(r'#loop\d+$', self.key) and body:
             return self.loop_body_signature(n, body[0])
         if sl and body:
             stmts = [c for c in body[0].get('inner', []) or []]
@@ -395,6 +395,26 @@ class FnTranslator:
             stmts = [loop['inner'][-1]]
         elif kind == 'DoStmt':
             stmts = [loop['inner'][0]]
+        elif kind == 'CallExpr':
+            # std::accumulate / std::find_if: the "body" is the lambda that is applied to each element
+            lam = self._find(loop, 'LambdaExpr')
+            rec = lam['inner'][0]
+            op = [c for c in rec['inner'] if c.get('kind') == 'CXXMethodDecl' and c.get('name') == 'operator()'][0]
+            caps = [c for c in rec['inner'] if c.get('kind') == 'FieldDecl']
+            if caps:
+                raise Unsupported('body slice of a lambda with captures')
+            op['_q'] = self.key
+            self.node = op
+            self.is_method = False
+            self.owner = None
+            self.ret_t = self.P.tp.parse(self._ret_type_string(op))
+            ps = []
+            for c in op.get('inner', []) or []:
+                if c.get('kind') == 'ParmVarDecl':
+                    pt = self.T(c)
+                    self.local_names[c['id']] = (c['name'], pt)
+                    ps.append((c['name'], ('ptr', pt[1]) if pt[0] == 'ref' else pt, pt[0] == 'ref'))
+            return ps
         else:
             raise Unsupported('body slice of a %s loop' % kind)
         self.slice_stmts = stmts
@@ -430,8 +450,8 @@ class FnTranslator:
         return ps
 
     def translate(self):
-        n = self.node
         ps = self.signature()
+        n = self.node          # (a lambda body slice switches the node to the lambda's operator())
         self.param_names = [(nm, self.local_names_type(nm)) for nm, _, _ in ps if nm != 'self']
         params = []
         for nm, t, isref in ps:
@@ -574,7 +594,7 @@ class FnTranslator:
         if getattr(self, 'outer_ret_t', None) is not None:
             raise Unsupported('return with a value inside a loop body slice')
         e = self.rvalue_for(inner[0], self.ret_t)
-        return g + self.flush() + ['return %s;' % e]
+        return g + self.flush() + self.ghost('at_return') + ['return %s;' % e]
 
     def s_IfStmt(self, n):
         inner = n['inner']
@@ -1486,6 +1506,15 @@ class FnTranslator:
         fn, caps = self.lambda_fn(lam, None)
         iv = self.ex(init)
         acc, idx = self.tmp('acc'), self.tmp('k')
+        if hasattr(self.U, 'loop_summary') and self.U.loop_summary(self.key, self.loopn) is not None:
+            k0 = self.loopn
+            summ = self.U.loop_summary(self.key, k0).replace('\\acc', acc).replace('\\range', a)
+            self.loop_nodes[k0] = n
+            self.loopn += 1
+            self.hit('loop-summarised')
+            self.pre.append('%s = %s;' % (self.decl(acc_t, acc), iv))
+            self.pre.append('/* std::accumulate (loop %d) replaced by its summary (see contract) */ { %s }' % (k0, summ))
+            return acc
         k, annot = self.loop_annot(n)
         lp = self.U.lambda_params(fn)
         # element is passed as the lambda declares it: by value, by const ref, or converted (T -> optional<T>)
